@@ -481,7 +481,9 @@ def splitTxQueue (v : VSock) (c : Ctx) : R (VSock × Ctx) :=
     let v := { v with segs := segs' }
     let v := match res with
       | .expired rewindTo payloadSize =>
-        let v := { v with timers := { v.timers with retransmit := none }, rtoRetransmissions := 0 }
+        -- "not a real RTO" only if the probe was all that was outstanding
+        let v := if v.segs.calcFlightSize rewindTo = 0 then
+            { v with timers := { v.timers with retransmit := none }, rtoRetransmissions := 0 } else v
         let v := if seqGt v.lastSentSeqNr rewindTo then { v with lastSentSeqNr := rewindTo } else v
         { v with ss := v.ss.onProbeFailed payloadSize }
       | _ => v
@@ -549,6 +551,7 @@ def stateGate (v : VSock) (hdr : Header) : Gate :=
       if isData ∨ isState then
         if hdr.ackNr ≠ wsub v.seqNr 1 then .dropPacket v
         else .proceed { v.restartInactivity with state := .established }
+      else if hdr.seqNr ≠ wadd v.lastConsumedRemoteSeqNr 1 then .dropPacket v   -- ST_FIN out of sequence
       else .proceed { v with state := .closed }       -- ST_FIN
     | .established =>
       if isFin then
